@@ -289,7 +289,8 @@ class DictReader:
                     eval_successful = True
                 elif "$" not in expression:
                     try:
-                        eval_result = cast("V", eval(expression))  # noqa: S307
+                        # evaluate with the module's names only (math / numpy functions), not this function's local variables
+                        eval_result = cast("V", eval(expression, globals(), {}))  # noqa: S307
                         eval_successful = True
                     except NameError:
                         eval_result = cast("V", expression)
